@@ -94,10 +94,18 @@ func (c *wsConnection) subscribe(ctx context.Context, id string, req *common.Req
 	c.subs[id] = handler
 	c.subsMu.Unlock()
 
-	subscribeCtx, subscribeCancel := context.WithTimeout(ctx, c.writeTimeout)
+	// The frame is written under the connection's ctx, like every other frame: a
+	// write whose ctx ends closes the whole socket, which the subscriber's ctx
+	// must not be able to do to the other subscriptions on this connection.
+	subscribeCtx, subscribeCancel := context.WithTimeout(c.ctx, c.writeTimeout)
 	defer subscribeCancel()
 
-	if err := c.protocol.Subscribe(subscribeCtx, c.conn, id, req); err != nil {
+	err := ctx.Err()
+	if err == nil {
+		err = c.protocol.Subscribe(subscribeCtx, c.conn, id, req)
+	}
+
+	if err != nil {
 		c.log.Error("wsConnection.Subscribe",
 			abstractlogger.String("id", id),
 			abstractlogger.Error(err),
